@@ -96,6 +96,10 @@ func runC03(t *testing.T, c *Case, o RunOpts) *Result {
 			res.Viol = pv
 			break
 		}
+		if src.Spun {
+			res.Viol = &simrt.Violation{Class: "hang", Site: "reader-spins", Text: fmt.Sprintf("%s reader, call %d: kept polling an exhausted stream (and swallowed the simulator's stop signal)", pl.Reader, call)}
+			break
+		}
 		if rerr == nil && isNilValue(rec) {
 			res.Viol = viol(site+"-nil-nil", "call %d returned neither a record nor an error", call)
 			break
@@ -262,7 +266,44 @@ func targeted(r *simrt.RNG, reader string) []byte {
 	bad := numericBoundary[3:5][r.Intn(2)] // "" or "x": non-numeric
 	switch reader {
 	case "fastq":
-		return []byte([]string{"@a\nACGT\n+\nII\n", "@a\nAC\n+\nIIII\n", "@a desc\nACGTA\n+a desc\nIIII\n", "@r\nA\n+\n\n"}[r.Intn(4)])
+		if r.Intn(3) == 0 {
+			return []byte([]string{"@a\nACGT\n+\nII\n", "@a\nAC\n+\nIIII\n", "@a desc\nACGTA\n+a desc\nIIII\n", "@r\nA\n+\n\n"}[r.Intn(4)])
+		}
+		// n letters against m != n quality characters; blanks inside either
+		// line do not count (the reader strips them), so lines of equal raw
+		// length can still be a mismatch
+		n := r.Range(1, 12)
+		m := n + r.Pick(-1, 1, -2, 2, -n)
+		if m < 0 {
+			m = 0
+		}
+		line := func(k int, set string, blanks int) string {
+			b := make([]byte, 0, k+blanks)
+			for i := 0; i < k; i++ {
+				b = append(b, set[r.Intn(len(set))])
+			}
+			for ; blanks > 0 && len(b) >= 2; blanks-- {
+				i := 1 + r.Intn(len(b)-1) // interior
+				b = append(b[:i], append([]byte{" \t"[r.Intn(2)]}, b[i:]...)...)
+			}
+			return string(b)
+		}
+		sb, qb := 0, 0
+		switch r.Intn(3) {
+		case 0: // pad the shorter line with blanks to the same raw length
+			if m < n {
+				qb = n - m
+			} else {
+				sb = m - n
+			}
+		case 1:
+			sb, qb = r.Intn(2), r.Intn(2)
+		}
+		plus := "+"
+		if r.Bool() {
+			plus = "+id"
+		}
+		return []byte("@id\n" + line(n, "ACGTN", sb) + "\n" + plus + "\n" + line(m, "!+5@IJ~", qb) + "\n")
 	case "gff":
 		feature := func(cols ...string) []byte { return []byte(strings.Join(cols, "\t") + "\n") }
 		switch r.Intn(11) {
@@ -397,6 +438,11 @@ func shrinkC03(c *Case) []*Case {
 		d2 := simio.NoFault("all", 0)
 		d2.TruncateAt, d2.ErrorAt, d2.ErrorWithData = d.TruncateAt, d.ErrorAt, d.ErrorWithData
 		add(in, d2)
+	}
+	if pl.Expect != "" {
+		// a targeted invalid line stays as generated: a shortened input need
+		// not be invalid any more, so shrinking it would fabricate findings
+		return out
 	}
 	// drop lines, then halves, then single bytes
 	lines := bytes.SplitAfter(in, []byte{'\n'})
